@@ -238,12 +238,65 @@ def _parse_predicate_table(f):
     return out
 
 
+def _parse_predicate_string_tables(P, f):
+    """a second table-driven form: one range-for per kind over a constant array of string literals at namespace scope —
+    `for (const char* p : prefixes) if (strncmp(p, key, strlen(p)) == 0) return true;` and
+    `for (const char* n : names) if (strcmp(n, key) == 0) return true;` — followed by `return false`."""
+    key_id = f.params[0]["id"]
+    kids = [x for x in f.ch(f.body)]
+    if not kids or f.k(kids[-1]) != "ReturnStmt" or f.nodes[f.strip(f.ch(kids[-1])[0])].get("cv", f.nodes[f.strip(f.ch(kids[-1])[0])].get("v")) not in (0, False):
+        return None
+    out = []
+    for L in kids[:-1]:
+        if f.k(L) != "CXXForRangeStmt":
+            return None
+        rng = [f.nodes[y]["decl"] for y in f.walk(f.nodes[L]["rangeInit"]) if f.k(y) == "DeclRefExpr" and f.nodes[y]["decl"].get("kind") in ("Var", "GlobalVar")]
+        g = None
+        for d in rng:
+            for q, gl in P.globals.items():
+                if gl.get("name") == d.get("name") and "initStrings" in gl:
+                    g = gl
+        if g is None:
+            return None
+        body = f.nodes[L]["body"]
+        ifs = [body] if f.k(body) == "IfStmt" else ([x for x in f.ch(body)] if f.k(body) == "CompoundStmt" else [])
+        if len(ifs) != 1 or f.k(ifs[0]) != "IfStmt" or f.nodes[ifs[0]].get("else", -1) >= 0:
+            return None
+        then = f.nodes[ifs[0]]["then"]
+        rets = [r for r in f.walk(then) if f.k(r) == "ReturnStmt"]
+        if len(rets) != 1 or f.nodes[f.strip(f.ch(rets[0])[0])].get("cv", f.nodes[f.strip(f.ch(rets[0])[0])].get("v")) not in (1, True):
+            return None
+        c = f.strip(f.nodes[ifs[0]]["cond"])
+        n = f.nodes[c]
+        if n["k"] != "BinaryOperator" or n.get("op") != "==" or f.nodes[f.strip(n["ch"][1])].get("cv") != 0:
+            return None
+        call = f.strip(n["ch"][0])
+        cal = f.nodes[call].get("callee")
+        if not cal or cal["name"] not in ("strncmp", "strcmp"):
+            return None
+        a = f.args(call)
+        has_key = any(f.k(f.strip(x)) == "DeclRefExpr" and f.nodes[f.strip(x)]["decl"].get("id") == key_id for x in a[:2])
+        if not has_key:
+            return None
+        if cal["name"] == "strncmp":
+            ln = f.strip(a[2])
+            if (f.nodes[ln].get("callee") or {}).get("name") != "strlen" or any(
+                    f.k(y) == "DeclRefExpr" and f.nodes[y]["decl"].get("id") == key_id for y in f.walk(ln)):
+                return None          # the length compared must be the table entry's own length
+            out += [("prefix", s_, len(s_)) for s_ in g["initStrings"]]
+        else:
+            out += [("exact", s_, None) for s_ in g["initStrings"]]
+    return out or None
+
+
 def parse_predicate(P):
     """reservedFitsKeyword -> list of (kind, literal, n): kind 'prefix' (strncmp(LIT,key,n)==0) or 'exact' (strcmp(LIT,key)==0)."""
     f = P.one("reservedFitsKeyword")
     rets = [i for i in f.walk() if f.k(i) == "ReturnStmt"]
     if len(rets) != 1:
         tab = _parse_predicate_table(f)
+        if tab is None:
+            tab = _parse_predicate_string_tables(P, f)
         if tab is not None:
             return f, tab
         raise core.AnalysisBroken("reservedFitsKeyword: expected a single return")
